@@ -316,14 +316,22 @@ static void do_gost_mac(vin_t *in, vout_t *o, uint8_t pat) {
 	vdrv_dirty_stack(pat);
 	rc = be ? gost28147_init_be(key.p, key_size, sbox, ctx) : gost28147_init(key.p, key_size, sbox, ctx);
 	for (ci = 0; ci < nchunks && !in->bad; ci++) {
-		uint8_t sa = vin_u8(in);
+		uint8_t sa = vin_u8(in), also;
 		size_t n; const uint8_t *p = vin_blob(in, &n);
 		vbuf_t sb;
 		if (in->bad) break;
+		also = sa & 0x40; sa &= 0x0f; /* bit 6: the same context also encrypts the chunk after it was MAC-ed (MAC-then-encrypt on one context) */
 		sb = vb_make(n, sa, p, pat);
 		if (rc == 0) {
 			if (be) gost28147_blocks_mac_be(ctx, sb.p, n / GOST28147_BLK_SIZE);
 			else gost28147_blocks_mac(ctx, sb.p, n / GOST28147_BLK_SIZE);
+			if (also && n >= GOST28147_BLK_SIZE) {
+				vbuf_t db = vb_make(n, (sa + 1) & 7, NULL, pat);
+				if (be) gost28147_blocks_encrypt_be(ctx, sb.p, n / GOST28147_BLK_SIZE, db.p);
+				else gost28147_blocks_encrypt(ctx, sb.p, n / GOST28147_BLK_SIZE, db.p);
+				if (!vb_canary_ok(&db)) guards = 0;
+				vb_free(&db);
+			}
 		}
 		if (n && memcmp(sb.p, p, n)) intact = 0;
 		if (!vb_canary_ok(&sb)) guards = 0;
